@@ -93,15 +93,24 @@ def ws2dwcv(y, nodata, llas, robust, out, lopt):
                 gamma = w_temp / (w_temp + s * ((-1 * d_eigs) ** 2))
                 r_arr = yv - y_temp
 
-                mad = np.median(
-                    np.abs(r_arr[r_weights != 0] - np.median(r_arr[r_weights != 0]))
-                )
-                u_arr = r_arr / (1.4826 * mad * np.sqrt(1 - gamma.sum() / n))
+                # residual statistics of the cells that carry weight only
+                # (valid and not rejected by a previous pass)
+                r_sel = r_arr[w_temp != 0]
+                mad = np.median(np.abs(r_sel - np.median(r_sel)))
 
-                r_weights = (1 - (u_arr / 4.685) ** 2) ** 2
-                r_weights[(np.abs(u_arr / 4.685) > 1)] = 0
+                # more than half of the residuals coincide (constant, linear or
+                # mostly flat series): no robust scale, keep the current weights
+                if mad > 0:
+                    u_arr = r_arr / (1.4826 * mad * np.sqrt(1 - gamma.sum() / n))
 
-                r_weights[r_arr > 0] = 1
+                    new_weights = (1 - (u_arr / 4.685) ** 2) ** 2
+                    new_weights[(np.abs(u_arr / 4.685) > 1)] = 0
+
+                    new_weights[r_arr > 0] = 1
+
+                    # the smoother needs at least two weighted observations
+                    if ((w * new_weights) > 0).sum() > 1:
+                        r_weights = new_weights
 
             robust_weights = w * r_weights
 
